@@ -259,6 +259,15 @@ func judgeRanges(text []byte) *eng.Fail {
 	if got := formula.FormatDiagnostic(o.src, d); got != want {
 		return eng.F("C15/format-diagnostic", "FormatDiagnostic gives %q, expected %q", got, want)
 	}
+	// ... and still after other texts have been parsed and located in between
+	if other := safeParse([]byte("a +\n\n  (b,\r\n c d")); !other.panicked && other.src != nil {
+		for _, od := range other.src.Diagnostics {
+			formula.FormatDiagnostic(other.src, od)
+		}
+	}
+	if got := formula.FormatDiagnostic(o.src, d); got != want {
+		return eng.F("C15/format-diagnostic", "after another text was parsed, FormatDiagnostic for this one gives %q, expected %q", got, want)
+	}
 	if o.src.Expression != nil && os.Getenv("VERIF_C15_ERRTREE") != "0" {
 		if f := checkRangesOnly(text, o.src.Expression, 0); f != nil {
 			return f
@@ -272,6 +281,12 @@ func judgeHelpers(text []byte) *eng.Fail {
 	got := formula.ComputeLineStarts(text)
 	if !reflect.DeepEqual(got, want) {
 		return eng.F("C15/line-starts", "ComputeLineStarts(%q) = %v, expected %v", text, got, want)
+	}
+	// a table that was handed out stays what it was when tables for other texts are computed later
+	formula.ComputeLineStarts([]byte("x\ny\r\nzz\n\nw"))
+	formula.ComputeLineStarts([]byte("q"))
+	if !reflect.DeepEqual(got, want) {
+		return eng.F("C15/line-starts", "the table returned for %q changed to %v after tables for other texts were computed (expected %v)", text, got, want)
 	}
 	for off := 0; off <= len(text); off++ {
 		l, c := lineColRef(want, off)
@@ -361,10 +376,17 @@ func runC15(w *eng.W) {
 		for l := 0; l <= 4; l++ {
 			seqsSharded(w, len(escAlpha), l, func(idx []int) {
 				body := intro + string(joinIdx(escAlpha, idx, ""))
-				for _, form := range []string{"'%s'", "'%s", "f('%s', 1) +", "\"%s\"\n+ b"} {
+				for _, form := range []string{"'%s'", "'%s", "f('%s', 1) +", "\"%s\"\n+ b", "ab%s", "total + x%s * 2", "12ab%s", "%sb", "a.%s"} {
 					do("escape-forms", []byte(strings.Replace(form, "%s", body, 1)))
 				}
 			})
+		}
+	}
+	for _, esc := range []string{"\\u0063", "\\u0031", "\\u4e2d", "\\u0024", "\\u005f", "\\u0020", "\\u{63}", "\\x63", "\\u00e9\\u0301"} {
+		for _, form := range []string{"ab%s", "%sab", "a%sb + 1", "x.y%s", "12%s", "f(a%s, b%s)", "a\n.b%s", "%s"} {
+			if w.Take() {
+				do("identifier-escapes", []byte(strings.Replace(form, "%s", esc, -1)))
+			}
 		}
 	}
 	lookaheadForms(w, "lookahead-forms", do)
